@@ -70,4 +70,39 @@ def tauEnergyBatch (t : CdfTable α) (evs : List (Ev α)) : Except Err (List α)
   (cdfSampleBatch 8192 t ((select (evs.map (isLow bmin)) evs).map (clampLow bmin))).bind fun zl =>
   .ok (assemble bmin bmax evs zv zl)
 
+/-! ## `Taus.tau_exit_prob(betas, log_e_nu)` on a batch, as the code computes it -/
+
+/-- one event of the exit-probability stage: (beta, log_e_nu) -/
+structure Pv (α : Type) where
+  b : α
+  le : α
+
+/-- the vectorised interpolator call on a sub-batch: raises if any point is outside the table -/
+def pexitInterpBatch (t : PexitTable α) (lg : List (List α)) (evs : List (Pv α)) : Except Err (List α) :=
+  allOk (evs.map fun e =>
+    if outOfBounds t.logE e.le || outOfBounds t.beta e.b then Except.error Err.outOfBounds
+    else Except.ok (bilinear t.logE t.beta lg e.le e.b))
+
+def pLow (bmin : α) (e : Pv α) : Bool := ltb e.b bmin
+def pHigh (bmax : α) (e : Pv α) : Bool := ltb bmax e.b
+def pValid (bmin bmax : α) (e : Pv α) : Bool := !(pLow bmin e) && !(pHigh bmax e)
+
+/-- `Pexit = zeros; Pexit[valid] = …; Pexit[low] = …; Pexit[high] = log10(eps); return 10**Pexit` -/
+def pexitAssemble (bmin bmax : α) (evs : List (Pv α)) (zv zl : List α) : List α :=
+  let e0 : List α := evs.map fun _ => 0
+  let e1 := scatter (evs.map (pValid bmin bmax)) e0 zv
+  let e2 := scatter (evs.map (pLow bmin)) e1 zl
+  let e3 := scatter (evs.map (pHigh bmax)) e2 ((select (evs.map (pHigh bmax)) evs).map fun _ => log10 eps32)
+  e3.map fun x => pow 10 x
+
+/-- one batch call: new table state (floored in place) and the result -/
+def pexitBatch (t : PexitTable α) (evs : List (Pv α)) : PexitTable α × Except Err (List α) :=
+  let t' : PexitTable α := { t with data := floorTable t.data }
+  let lg := t'.data.map fun r => r.map log10
+  let bmin := t.beta.getD 0 0
+  let bmax := t.beta.getD (t.beta.length - 1) 0
+  (t', (pexitInterpBatch t lg (select (evs.map (pValid bmin bmax)) evs)).bind fun zv =>
+       (pexitInterpBatch t lg ((select (evs.map (pLow bmin)) evs).map fun e => { e with b := bmin })).bind fun zl =>
+       .ok (pexitAssemble bmin bmax evs zv zl))
+
 end Model.Stage
